@@ -1,7 +1,7 @@
 (** Property C01 — theorems only.  [run] is the reference semantics (Core.Sem); the extracted [run] is
     the oracle of the failing-input search in harness/props/C01.py. *)
 From Coq Require Import ZArith List Bool.
-From Core Require Import Syntax Sem Equiv PartialEval PartialEvalSound Subst RewriteAt ShiftLoop DivideLoop FissionFuse ReorderLoops.
+From Core Require Import Syntax Sem Equiv PartialEval PartialEvalSound Subst RewriteAt ShiftLoop DivideLoop FissionFuse ReorderLoops RewriteAtL RemoveLoop.
 Import ListNotations.
 Local Open Scope Z_scope.
 
@@ -269,3 +269,40 @@ Theorem C01_reorder_proc : forall i p,
   ReorderLoops.reorder_ok_proc i p = true -> preserves p (ReorderLoops.reorder_proc i p).
 Proof. intros i p Hsem H inp bufs cfg. apply ReorderLoops.reorder_proc_preserves; assumption. Qed.
 Print Assumptions C01_reorder_proc.
+
+(** remove_loop: the body does not mention the iteration variable and is idempotent (the contract of
+    Check_IsIdempotent); the loop becomes `if hi > lo: body`, or the body itself when hi > lo is established *)
+Theorem C01_remove_loop_guard : forall i lo hi body par,
+  forallb (Subst.okbind (RemoveLoop.okbD i)) body = true -> forallb (Subst.nm_s i (RemoveLoop.hidx i)) body = true ->
+  RemoveLoop.idempotent body ->
+  refines [For i lo hi body par] [If (BinOp OGt hi lo) body []].
+Proof. exact RemoveLoop.rule_remove_loop_guard. Qed.
+Print Assumptions C01_remove_loop_guard.
+
+Theorem C01_remove_loop : forall i lo hi body par,
+  forallb (Subst.okbind (RemoveLoop.okbD i)) body = true -> forallb (Subst.nm_s i (RemoveLoop.hidx i)) body = true ->
+  RemoveLoop.idempotent body -> forallb Rules.nodecl body = true ->
+  (forall st l h, eval st lo = Ok (VInt l) -> eval st hi = Ok (VInt h) -> l < h) ->
+  refines [For i lo hi body par] body.
+Proof. exact RemoveLoop.rule_remove_loop. Qed.
+Print Assumptions C01_remove_loop.
+
+(** whole procedures (term-identical to what Procedure.remove_loop returns, in either of its two forms) *)
+Theorem C01_remove_guard_proc : forall i p,
+  (forall s l, RemoveLoop.remove_guard_f i s = Some l -> RemoveLoop.remove_sem_ok false s) ->
+  RemoveLoop.remove_guard_ok_proc i p = true -> preserves p (RemoveLoop.remove_guard_proc i p).
+Proof. intros i p Hs H inp bufs cfg. apply RemoveLoop.remove_guard_proc_preserves; assumption. Qed.
+Print Assumptions C01_remove_guard_proc.
+
+Theorem C01_remove_splice_proc : forall i p,
+  (forall s l, RemoveLoop.remove_splice_f i s = Some l -> RemoveLoop.remove_sem_ok true s) ->
+  RemoveLoop.remove_splice_ok_proc i p = true -> preserves p (RemoveLoop.remove_splice_proc i p).
+Proof. intros i p Hs H inp bufs cfg. apply RemoveLoop.remove_splice_proc_preserves; assumption. Qed.
+Print Assumptions C01_remove_splice_proc.
+
+(** list-valued version of C01_rewrite_everywhere *)
+Theorem C01_rewrite_everywhere_list : forall f ok,
+  (forall s l, f s = Some l -> ok s = true -> refines [s] l) ->
+  forall p, RewriteAtL.okl_proc f ok p = true -> preserves p (RewriteAtL.rwl_proc f p).
+Proof. intros f ok H p Hok inp bufs cfg. apply RewriteAtL.rwl_proc_preserves with (ok := ok); assumption. Qed.
+Print Assumptions C01_rewrite_everywhere_list.
